@@ -1,6 +1,7 @@
 package checks
 
 import (
+	"bytes"
 	"encoding/binary"
 	"encoding/json"
 	"errors"
@@ -8,6 +9,7 @@ import (
 	"io"
 	"os"
 	"runtime/debug"
+	"strconv"
 	"strings"
 	"syscall"
 
@@ -77,6 +79,15 @@ func c16Setter(c *mon.Ctx, k *c16Case) {
 		if k.NoAck {
 			return nil
 		}
+		if m.Type == uapi.MsgGet {
+			n := uapi.StatusSize
+			for _, b := range k.Before {
+				if strings.HasPrefix(b, "GetStatus:") {
+					n, _ = strconv.Atoi(b[len("GetStatus:"):])
+				}
+			}
+			return []simkernel.Step{{Dgram: simkernel.Ack(m, 0)}, {Dgram: simkernel.Dgram(uapi.MsgGet, 0, m.Seq, 0, bytes.Repeat([]byte{0x11}, n))}}
+		}
 		if idx == 0 && k.Prior == "refused" {
 			return []simkernel.Step{{Dgram: simkernel.Ack(m, syscall.EPERM)}}
 		}
@@ -93,8 +104,20 @@ func c16Setter(c *mon.Ctx, k *c16Case) {
 			}
 		}
 	}
+	extraDeliveries := 0
 	for i, b := range k.Before {
 		var perr error
+		if strings.HasPrefix(b, "GetStatus:") {
+			// a status query answered with a legal short (older kernel) or long reply: what the client learnt from it
+			// must not change what a later setter sends
+			if p, st := mon.Try(func() { _, perr = cl.GetStatus() }); p != nil || perr != nil || len(sim.Sent) != i+1 {
+				c.Violation("setter-after-setter", fmt.Sprintf("earlier %s returned %v (panic %v %s), %d requests on the wire", b, perr, p, st, len(sim.Sent)), k)
+				return
+			}
+			first++
+			extraDeliveries++
+			continue
+		}
 		if p, st := mon.Try(func() { perr = c16Call(cl, b, 1, libaudit.WaitForReply) }); p != nil {
 			c.Violation("panic", fmt.Sprintf("%s panicked: %v\n%s", b, p, st), k)
 			return
@@ -164,6 +187,9 @@ func c16Setter(c *mon.Ctx, k *c16Case) {
 		return
 	}
 	for i := 0; i < first; i++ {
+		if i < len(k.Before) && strings.HasPrefix(k.Before[i], "GetStatus:") {
+			continue
+		}
 		if pm := sim.Sent[i]; pm.Type != uapi.MsgSet || pm.Flags != uapi.NlmFRequest|uapi.NlmFAck {
 			c.Violation("setter-flags", fmt.Sprintf("%s: the earlier request #%d went out with type %d flags %#x, want AUDIT_SET with NLM_F_REQUEST|NLM_F_ACK (0x5)", desc, i+1, pm.Type, pm.Flags), k)
 			return
@@ -200,7 +226,7 @@ func c16Setter(c *mon.Ctx, k *c16Case) {
 		return
 	}
 	if len(k.Before) > 0 {
-		if !k.NoWait && sim.NDeliver != first+1 {
+		if !k.NoWait && sim.NDeliver != first+1+extraDeliveries {
 			c.Violation("wait-receives", fmt.Sprintf("%s: %d datagrams consumed by %d WaitForReply setters, want one ACK each", desc, sim.NDeliver, first+1), k)
 		}
 		return
@@ -423,6 +449,15 @@ func c16Run(c *mon.Ctx) {
 			}
 		}
 	}
+	// a GetStatus answered with 32..60 bytes, then each setter (both modes); also with another setter in between
+	for _, n := range []int{32, 36, 40, 43, 44, 48, 60} {
+		for _, b := range c16Setters {
+			for _, nw := range []bool{false, true} {
+				cases = append(cases, &c16Case{Kind: "setter", Setter: b, Arg: 1, NoWait: nw, Before: []string{fmt.Sprintf("GetStatus:%d", n)}})
+				cases = append(cases, &c16Case{Kind: "setter", Setter: b, Arg: 1, NoWait: nw, Before: []string{"SetEnabled", fmt.Sprintf("GetStatus:%d", n), "SetRateLimit"}})
+			}
+		}
+	}
 	for i := 0; i < c.Pick(3000, 300000); i++ {
 		r := c.Rand(3, uint64(i))
 		k := &c16Case{Kind: "setter", Setter: mon.Pick(r, c16Setters), Arg: int64(r.Uint32()), NoWait: r.Bool()}
@@ -490,7 +525,7 @@ func c16Run(c *mon.Ctx) {
 func init() {
 	register(&mon.CheckSpec{
 		ID: "C16", Level: "exploration",
-		Rule: "cases = every Set* command x {all uint32/int32 boundary values, both booleans, all failure modes incl. the exported names, random values} x both wait modes (also as the 2nd..301st request in a row of uncollected NoWait requests, as a request that the transport numbers 0, and after every ordered pair and triple - plus random runs of 3-12 - of other setters that were acknowledged and collected on the same client, SetImmutable included), observed as the NetlinkMessage handed to a simulated kernel's Send and decoded word by word at the UAPI audit_status offsets (one request, type 1001, flags REQUEST|ACK, 44-byte payload, exactly one mask bit, the value in its field, every other word zero; NoWait does no receive); the 21 exported numbers against the kernel's; GetStatus's request (one AUDIT_GET, REQUEST|ACK, empty) and its decoding of replies of every length 0..96; FromWireFormat on every buffer length 0..96 x random / all-ones / all-zero contents with a garbage-prefilled receiver and the input ending at a PROT_NONE page. The same cases run a second time under the race detector (checkptr) and, in the thorough tier, under ASan. distinct_nontrivial = distinct (setter, value, mode) triples and distinct buffers.",
+		Rule: "cases = every Set* command x {all uint32/int32 boundary values, both booleans, all failure modes incl. the exported names, random values} x both wait modes (also as the 2nd..301st request in a row of uncollected NoWait requests, as a request that the transport numbers 0, and after every ordered pair and triple - plus random runs of 3-12 - of other setters that were acknowledged and collected on the same client, SetImmutable included, and after a GetStatus that was answered with a 32..60-byte status), observed as the NetlinkMessage handed to a simulated kernel's Send and decoded word by word at the UAPI audit_status offsets (one request, type 1001, flags REQUEST|ACK, 44-byte payload, exactly one mask bit, the value in its field, every other word zero; NoWait does no receive); the 21 exported numbers against the kernel's; GetStatus's request (one AUDIT_GET, REQUEST|ACK, empty) and its decoding of replies of every length 0..96; FromWireFormat on every buffer length 0..96 x random / all-ones / all-zero contents with a garbage-prefilled receiver and the input ending at a PROT_NONE page. The same cases run a second time under the race detector (checkptr) and, in the thorough tier, under ASan. distinct_nontrivial = distinct (setter, value, mode) triples and distinct buffers.",
 		Assumptions: []string{
 			"expected offsets, mask bits and numbers come from internal/uapi (hand-written from linux/audit.h, self-tested against the system header)",
 			"a field the buffer reaches only partially may be zero or hold the reached low bytes (the statement does not define it)",
